@@ -39,7 +39,9 @@ def from_raw(items, widths, max_events=2500, with_prog=True):
             continue
         out = {"how": r.get("how", "none"), "sp": r.get("sp", -1), "line": r.get("line") or 0,
                "final": r.get("final") or NONE, "obs": r.get("obs") or NONE}
+        from . import vmtrace
         rec = {"id": it["id"], "funcs": r["funcs"], "consts": r["consts"], "widths": widths, "bnames": r["bnames"],
+               "opnames": list(vmtrace.OPNAMES) or OPNAMES, "opc": vmtrace.opc(),
                "obsidx": r.get("obsidx", -1), "trace": r["trace"], "out": out}
         if with_prog and "ap" in it:
             rec["prog"] = it["ap"]
@@ -59,7 +61,9 @@ def describe(v, raw):
     tr = raw.get("trace") or []
     at = v.get("at", 0)
     prev = tr[at - 2] if 2 <= at <= len(tr) + 1 else None
-    opn = OPNAMES[prev[3]] if prev and prev[3] < len(OPNAMES) else "start"
+    from . import vmtrace
+    names = vmtrace.OPNAMES or OPNAMES
+    opn = names[prev[3]] if prev and prev[3] < len(names) else "start"
     return "%s: %s after %s" % (v["v"], v["why"], opn)
 
 
